@@ -2,7 +2,7 @@
    unit, list, prod, sumbool, sumor map to OCaml's; numbers and octets stay Coq's inductives.
    No Extract Constant. *)
 Require Import DV.Base.Bytes DV.Base.Utf8 DV.Model.Leaf DV.Spec.Wire DV.Model.Avp
-  DV.Model.Message DV.Model.Dict DV.Model.Build.
+  DV.Model.Message DV.Model.Dict DV.Model.Build DV.Model.IoWrite DV.Model.Stream DV.Model.Server.
 Require Extraction.
 Require Import ExtrOcamlBasic.
 Extraction Language OCaml.
@@ -15,4 +15,7 @@ Extraction "model.ml"
   msg_new msg_add msg_add_avp enc_msg enc_msg_raw msg_enc_ok dec_msg abs_msg get_avp get_typed
   known_cmd known_app
   ins lookup by_name dict_fn drun dstep dict_empty ty_of_name must_has_m def_of_x nm_get
-  eval_a eval_v hstep hrun hstart_msg from_name.
+  eval_a eval_v hstep hrun hstart_msg from_name get_avps group_members
+  enc_to caps_posb write_chunks msg_chunks
+  read_exact codec_decode codec_decode_legacy decode_n bytes_of all_bytes fault_free err_cut write_all codec_encode accepting
+  serve serve_loop answer_octets whole_frames.
